@@ -99,6 +99,9 @@ def run_task(task):
         if task.get("lock_log") and res.locks is not None:
             from mxv import lockprogs
             out["lockcases"] = lockprogs.cases_of(res.locks)
+            if task.get("lock_key") is not None:
+                out["lockpats"] = sorted(set((tuple(h), w) for ps in lockprogs.patterns(res.locks, "role").values()
+                                             for (h, w) in ps))
             out["lock_events"] = len(res.locks)
         post = o.get("post")
         if post:
@@ -288,6 +291,31 @@ class Check(object):
                 src = sources.setdefault(k, [])
                 if len(src) < per_case:
                     src.append(t)
+        # role-level patterns of DIFFERENT executions of the same configuration (task["lock_key"]) are paired too: two
+        # flows that exclude each other in any single sequential-looking execution (whoever comes first completes
+        # the operation) still form a case; steering the executions either pattern came from decides
+        bykey = {}
+        for (t, r), _ in pairs:
+            if t.get("lock_key") is None:
+                continue
+            d = bykey.setdefault(t["lock_key"], {})
+            for pat in r.get("lockpats") or []:
+                pat = (tuple(pat[0]), pat[1])
+                src = d.setdefault(pat, [])
+                if len(src) < per_case:
+                    src.append(t)
+        for key, d in bykey.items():
+            pats = sorted(d)
+            for i, pa in enumerate(pats):
+                sa = set(pa[0]) | {pa[1]}
+                for pb in pats[i + 1:]:
+                    if len(sa & (set(pb[0]) | {pb[1]})) < 2:
+                        continue
+                    c = {"level": "role", "pats": [[list(pa[0]), pa[1]], [list(pb[0]), pb[1]]], "threads": ["*", "*"]}
+                    k = lockprogs.case_key(c)
+                    if k not in cases:
+                        cases[k] = c
+                        sources[k] = (d[pa][:per_case // 2 + 1] + d[pb][:per_case // 2 + 1])[:per_case + 2]
         keys = sorted(cases)
         # TLC sees each distinct *shape* once (locks renamed in order of first appearance, programs ordered)
         shapes, shape_of = {}, []
